@@ -31,7 +31,8 @@ from pydra.compose import python
 from pydra.engine.submitter import Submitter
 from pydra.workers.cf import ConcurrentFuturesWorker
 
-WATCHDOG = float(os.environ.get("VERIF_SCHED_WATCHDOG", "120"))  # seconds; only ever a failure path
+WATCHDOG = float(os.environ.get("VERIF_SCHED_WATCHDOG", "240"))  # seconds; only ever a failure path
+STALL_TICK_LIMIT = 60  # sleeps of the stall detector in one submission (it gives up after 11)
 SPIN_LIMIT = 60  # consecutive polls without a single await of the loop = livelock
 
 
@@ -77,12 +78,13 @@ def body(nm, ctl, mode, idx, inherit, deps):
         return ["J", tag, [d for d in deps if d is not None]]
     _log(ctl, f"S {tag} {os.getpid()}")
     tok = os.path.join(ctl, tag + ".finish")
+    abort = os.path.join(ctl, "ABORT")
     t0 = time.time()
     while not os.path.exists(tok):
-        if time.time() - t0 > WATCHDOG * 3:
+        if os.path.exists(abort) or time.time() - t0 > WATCHDOG * 3:
             _log(ctl, f"T {tag}")
-            raise TimeoutError(f"body {tag}: no finish token")
-        time.sleep(0.002)
+            raise TimeoutError(f"body {tag}: no finish token (schedule player gave up)")
+        time.sleep(0.004)
     with open(tok) as f:
         what = f.read().strip()
     _log(ctl, f"E {tag} {what}")
@@ -103,6 +105,24 @@ def Body(
     d2: ty.Any = None,
     d3: ty.Any = None,
 ) -> ty.Any:
+    from harness.engines.sched_worker import body
+
+    return body(nm, ctl, mode, idx, inherit, [d0, d1, d2, d3])
+
+
+@python.define(outputs=["out"])
+def BodyT(
+    nm: str,
+    ctl: str,
+    mode: str = "gate",
+    idx: ty.Any = None,
+    inherit: bool = False,
+    d0: list | None = None,
+    d1: list | None = None,
+    d2: list | None = None,
+    d3: list | None = None,
+) -> list:
+    """the same body with typed connections (C18: typed back edges)"""
     from harness.engines.sched_worker import body
 
     return body(nm, ctl, mode, idx, inherit, [d0, d1, d2, d3])
@@ -137,15 +157,36 @@ class Control:
         self._log_pos = 0
         self.seen_s: list[str] = []
         self.seen_e: list[str] = []
+        self.aborted = False
+        self.ticks = 0
+        self.livelock = False
 
     # ---- used by worker / observer (same thread, same loop)
     def ev(self, *rec):
         self.events.append(list(rec))
+        if os.environ.get("VERIF_SCHED_TRACE"):
+            import sys
+
+            print("EV", rec[0], rec[1] if len(rec) > 1 else "", file=sys.stderr, flush=True)
 
     def gate(self, table: dict, tag: str) -> asyncio.Future:
         if tag not in table:
             table[tag] = asyncio.get_event_loop().create_future()
+        if self.aborted and not table[tag].done():
+            table[tag].set_result(True)
         return table[tag]
+
+    def abort(self):
+        """the schedule player has given up: open every gate, now and in future, and tell the bodies to stop waiting"""
+        self.aborted = True
+        try:
+            (self.dir / "ABORT").write_text("abort")
+        except OSError:
+            pass
+        for tbl in (self.start_gate, self.fin_gate):
+            for f in tbl.values():
+                if not f.done():
+                    f.set_result(True)
 
     def open(self, table: dict, tag: str):
         f = self.gate(table, tag)
@@ -179,7 +220,7 @@ class Control:
             if cond():
                 return
             n += 1
-            await _real_sleep(0 if n < 50 else 0.003)
+            await _real_sleep(0 if n < 20 else 0.004)
             if time.time() - t0 > WATCHDOG:
                 raise DeviceTimeout(f"controller waited > {WATCHDOG}s for {what}")
 
@@ -202,6 +243,10 @@ class _AsyncioProxy:
         if c is not None:
             c.ev("Z")
             c.spin = 0
+            c.ticks += 1
+            if c.ticks > STALL_TICK_LIMIT:
+                c.livelock = True
+                raise Livelock(f"the stall detector slept {c.ticks} times without giving up")
         await _real_sleep(0)
         return result
 
@@ -279,6 +324,7 @@ class ObsSubmitter(Submitter):
             c.ev("P", [job_tag(j) for j in tasks], _tables(graph))
             c.spin += 1
             if c.spin > SPIN_LIMIT:
+                c.livelock = True  # the loop's `finally` may replace the exception by the collected job errors
                 raise Livelock(f"{c.spin} polls without the loop awaiting anything")
         return tasks
 
